@@ -116,11 +116,12 @@ ImgFonts    == {ImgFont(m) : m \in {x \in 1 .. 15 : PopCount(x) \in ImgCounts}}
 
 \* fonts of the fill family
 \* keys: one single substitution per feature (the first three are the ones gsub_apply_default / build_lookups_default
-\* treat specially: frac = two lists, vert = VRT2_OR_VERT fallback, rvrn = taken out of the mask); both language
-\* systems have every feature
+\* treat specially: frac = two lists, vert = VRT2_OR_VERT fallback, rvrn = taken out of the mask); the second
+\* language system has every second feature only (not frac), so the supported-feature masks differ
 KeyFeats == <<"frac", "vert", "rvrn", "liga", "ccmp", "calt", "clig", "rlig", "locl", "smcp", "onum", "lnum", "tnum", "zero">>
 KeyContent == <<"12", "A", "B", "C", "D", "E", "F", "G", "H", "I", "J", "K", "L", "M">>
-KeysLayout == [j \in 1 .. Len(KeyFeats) |-> SingleL("GSUB", j - 1, KeyFeats[j], 2560 + 32 * (j - 1), KeyContent[j], TRUE)]
+KeysLayout == [j \in 1 .. Len(KeyFeats) |-> SingleL("GSUB", j - 1, KeyFeats[j], 2560 + 32 * (j - 1), KeyContent[j], j % 2 = 0)]
+KeyL2Feats == {KeyFeats[j] : j \in {k \in 1 .. Len(KeyFeats) : k % 2 = 0}}
 \* lookups: lookup i - 1 belongs to the feature Tag(i) and covers one upper-case and one lower-case letter: the
 \* pair is different for every i < 676
 Digit == <<"0", "1", "2", "3", "4", "5", "6", "7", "8", "9">>
@@ -152,6 +153,9 @@ ShapeCallX(s, l, m, t, custom, feats, frac, m0) ==
 ShapeCallL(s, l, m, t, custom, feats) == ShapeCallX(s, l, m, t, custom, feats, FALSE, m)
 ShapeCall(s, m, t, custom, feats) == ShapeCallL(s, "l1", m, t, custom, feats)
 TableCalls == {[op |-> "Table", k |-> k] : k \in TableKinds}
+\* `feats` are the features in force (the mask / list intersected with the language system), `mfeats` the features
+\* the caller names (the harness passes those)
+WithM(call, mf) == [x \in DOMAIN call \cup {"mfeats"} |-> IF x = "mfeats" THEN mf ELSE call[x]]
 
 IntactCalls ==
        {[op |-> "LookupGlyph", ch |-> c, pres |-> p, vs |-> v] : c \in Chars, p \in Pres, v \in VSs}
@@ -174,8 +178,8 @@ CollideCalls ==
        {ShapeCall("s1", f, "none", cu, <<f>>) : f \in CollideFeats, cu \in BOOLEAN}
   \cup {ShapeCall("s1", "all", "none", cu, AllFeats) : cu \in BOOLEAN}
   \* under the second language system only its own features are in force
-  \cup {ShapeCallL("s1", "l2", f, "none", cu, IF f \in L2Feats THEN <<f>> ELSE <<>>) : f \in {"liga", "dlig"}, cu \in BOOLEAN}
-  \cup {ShapeCallL("s1", "l2", "all", "none", cu, SelectSeq(AllFeats, LAMBDA f : f \in L2Feats)) : cu \in BOOLEAN}
+  \cup {WithM(ShapeCallL("s1", "l2", f, "none", cu, IF f \in L2Feats THEN <<f>> ELSE <<>>), <<f>>) : f \in {"liga", "dlig"}, cu \in BOOLEAN}
+  \cup {WithM(ShapeCallL("s1", "l2", "all", "none", cu, SelectSeq(AllFeats, LAMBDA f : f \in L2Feats)), AllFeats) : cu \in BOOLEAN}
 
 \* img: the image queries (all of them go through Font::embedded_images)
 ImgQueries == <<[op |-> "LookupGlyph", ch |-> "EM", pres |-> "Req", vs |-> "none"],
@@ -183,20 +187,30 @@ ImgQueries == <<[op |-> "LookupGlyph", ch |-> "EM", pres |-> "Req", vs |-> "none
 ImgFiltersOf(font) == IF ImgFilterMode = "own" THEN {f \in 0 .. 15 : FilterWithin(f, font.imgs)} ELSE 0 .. 15
 NumFilters(p) == Len(SelectSeq(p, LAMBDA c : c.op = "SetFilter"))
 
-\* fill, keys: the i-th key is (script i % 5, language (i \div 5) % 4, mask number (i \div 20) * 8 + i % 8);
-\* bit j - 1 of the mask number says whether KeyFeats[j] is in the mask, so the key is different for every i, every
-\* second one has frac (its partner key, the mask without frac, is no other i's key), and vert / rvrn come and go
-KeyA(i) == (i % 5) + 1
-KeyB(i) == (i \div 5) % 4
+\* fill, keys: the calls come in blocks of 20; within block k = i \div 20 the scripts are 5 consecutive ones
+\* (of 40, starting at 5k), the languages 4 consecutive ones (of 24, starting at 4k), the mask number is 8k + i % 8;
+\* bit j - 1 of the mask number says whether KeyFeats[j] is in the mask.  So (script, language, mask) is different
+\* for every i, (script, language) hardly ever repeats, every second call has frac in its mask (its partner key,
+\* the mask without frac, is no other i's key) and vert / rvrn come and go.  Languages l2, l6, l10 .. are the
+\* second language system of the font (the harness maps them to it), l0 is "no language", the others are
+\* languages nobody has heard of (default language system); scripts from s3 on are unknown (DFLT).
+KeyA(i) == (((i % 5) + (5 * (i \div 20))) % 40) + 1
+KeyB(i) == (((i \div 5) % 4) + (4 * (i \div 20))) % 24
 KeyC(i) == ((i \div 20) * 8) + (i % 8)
+IsL2(b) == b % 4 = 2
 Pow2(j) == <<1, 2, 4, 8, 16, 32, 64, 128, 256, 512, 1024, 2048, 4096, 8192>>[j + 1]
 FeatsOfMask(c) == SelectSeq(KeyFeats, LAMBDA f : \E j \in 1 .. Len(KeyFeats) : KeyFeats[j] = f /\ Bit(c, Pow2(j - 1)))
 KeyCall(i, custom) ==
-  LET c == KeyC(i) IN
-  ShapeCallX("s" \o ToString(KeyA(i)), "l" \o ToString(KeyB(i)), "m" \o ToString(c), "none", custom, FeatsOfMask(c),
-             ~custom /\ (c % 2) = 1, IF custom THEN "m" \o ToString(c) ELSE "m" \o ToString(c - (c % 2)))
+  LET c     == KeyC(i)
+      feats == IF IsL2(KeyB(i)) THEN SelectSeq(FeatsOfMask(c), LAMBDA f : f \in KeyL2Feats) ELSE FeatsOfMask(c)
+      frac  == ~custom /\ (c % 2) = 1 /\ ~IsL2(KeyB(i)) IN
+  WithM(ShapeCallX("s" \o ToString(KeyA(i)), "l" \o ToString(KeyB(i)), "m" \o ToString(c), "none", custom, feats,
+                   frac, IF frac THEN "m" \o ToString(c - 1) ELSE "m" \o ToString(c)),
+        FeatsOfMask(c))
 \* fill, complex: the i-th call shapes under the font's own (complex) script with a language nobody has heard of
+\* (number 4i + 3: never one of the numbers that stand for the second language system)
 LangCall(s, b, m) == ShapeCallL(s, "l" \o ToString(b), m, "none", FALSE, <<>>)
+LangNo(i) == (4 * i) + 3
 \* fill, lookups: the i-th call applies the i-th lookup of GSUB and of GPOS through a custom feature list
 TagCall(tags) == ShapeCallX("s1", "l1", IF Len(tags) = 1 THEN tags[1] ELSE "all", "none", TRUE, tags, FALSE,
                             IF Len(tags) = 1 THEN tags[1] ELSE "all")
@@ -207,7 +221,7 @@ Hi(n) == IF n + 24 < FillLookups THEN n + 24 ELSE FillLookups
 BlockTags(n) == [i \in 1 .. (Hi(n) - Lo(n) + 1) |-> Tag(Lo(n) + i - 1)]
 FillMax(font) == CASE font.sub = "keys" -> FillKeys [] font.sub = "complex" -> FillLangs [] OTHER -> FillLookups
 FillCall(font, i) == CASE font.sub = "keys"    -> KeyCall(i, FALSE)
-                       [] font.sub = "complex" -> LangCall("s1", i + 3, "m1")
+                       [] font.sub = "complex" -> LangCall("s1", LangNo(i), "m1")
                        [] OTHER                -> TagCall(<<Tag(i)>>)
 Checkpoints == {16, 31, 32, 33, 48, 62, 63, 64, 65, 66, 96, 100, 127, 128, 129, 130, 150, 200, 255, 256, 257, 258, 300,
                 400, 511, 512, 513, 600, 800, 1000, 1023, 1024, 1025, 1500, 2000}
@@ -219,7 +233,7 @@ FillFan(font, n) ==
          {KeyCall(i, FALSE) : i \in {1, 2, n - 1, n, n + 1, n + 2, n + 3, n + 4} \cap (1 .. n + 4)}
          \cup {KeyCall(i, TRUE) : i \in {1, n + 1}} \cup {[op |-> "Table", k |-> "gsub"]}
     [] font.sub = "complex" ->
-         {LangCall(s, b, m) : s \in {"s1", "s2"}, b \in {1, 4, n + 3, n + 4, n + 5}, m \in {"m1", "m2"}}
+         {LangCall(s, b, m) : s \in {"s1", "s2"}, b \in {1, LangNo(1), LangNo(n), LangNo(n + 1), LangNo(n + 2)}, m \in {"m1", "m2"}}
          \cup {[op |-> "MapGlyphs", text |-> TextDC, script |-> "s1", pres |-> "NotReq"]}
     [] OTHER ->
          {TagCall(<<Tag(i)>>) : i \in {1, 2, n, n + 1, FillLookups} \cap (1 .. FillLookups)}
